@@ -1,7 +1,7 @@
 CONSTANTS
   Variant = "orig_slash"
   Family = "slash"
-  Size = "q"
+  Size = "m"
 INIT Init
 NEXT Next
 CHECK_DEADLOCK FALSE
